@@ -1,5 +1,6 @@
 import Proofs.Lemmas.Solver
 import FsicModel.Generated
+import Proofs.Lemmas.SolverTable
 /-
 C06 — Numerical-error and failure policies follow the documented state machine.
 
@@ -374,6 +375,37 @@ example : solveT exI { maxIter := 5, errors := .skip } 3 1 ⟨0, List.replicate 
 example : solveT exI { maxIter := 5, errors := .replace, failRaise := false } 3 1
       ⟨0, List.replicate 3 .unsolved, [-1, -1, -1]⟩
     = (⟨102, [.unsolved, .failed, .unsolved], [-1, 5, -1]⟩, .ret false) := by decide
+
+/-! ### Converse: the policies are the only source of their statuses -/
+
+/-- **The policies are the only source of their statuses.**  Whatever the model does: a call leaves 'S' only under
+    `errors='skip'`, 'E' only under `errors='raise'`, raises the invalid-`errors` ValueError only when `errors` is not
+    one of the four policies, and 'S'/'E' always carry the number of the pass that met the fault
+    (`1 ≤ iterations[t] ≤ max_iter`). -/
+theorem policy_statuses_sound :
+    (∀ k, (outcomeOf I o n t w.user).2.1 = some (.skipped, k) → o.errors = .skip ∧ 1 ≤ k ∧ k ≤ o.maxIter) ∧
+    (∀ k, (outcomeOf I o n t w.user).2.1 = some (.error, k) → o.errors = .raise ∧ 1 ≤ k ∧ k ≤ o.maxIter) ∧
+    ((outcomeOf I o n t w.user).2.2 = .badErrorsArg → o.errors = .invalid) := by
+  have h := outcome_agrees I o t n w.user
+  generalize outcomeOf I o n t w.user = oc at h ⊢
+  rcases oc with ⟨u', st, r⟩
+  simp only at h
+  refine ⟨?_, ?_, ?_⟩
+  · intro k hk
+    simp only at hk; subst hk
+    cases r with
+    | ret b => cases b <;> simp only [Agree] at h; exact ⟨h.2.2, h.1, h.2.1⟩
+    | _ => simp only [Agree] at h
+  · intro k hk
+    simp only at hk; subst hk
+    cases r with
+    | solutionError c => simp only [Agree] at h; exact ⟨h.2.2, h.1, h.2.1⟩
+    | _ => simp only [Agree] at h
+  · intro hr
+    simp only at hr; subst hr
+    rcases st with _ | ⟨s, k⟩
+    · simpa only [Agree] using h
+    · cases s <;> simp only [Agree] at h
 
 /-! ### Non-vacuity (review): every hypothesis-carrying theorem instantiated at a concrete run with real passes -/
 
